@@ -116,9 +116,16 @@ def simm(im):
     return str(s64(im))
 
 
+INT_OPS = sorted(b + sfx for b in BASES for sfx in ("", "S"))
+BR_OPS = [("UB" + c[1:] if c.startswith("U") else "B" + c) + sfx for c in sorted(CMPS) for sfx in ("", "S")]
+EXT_OPS = ["EXT8", "EXT16", "EXT32", "UEXT8", "UEXT16", "UEXT32"]
+
+
 def build_grid_funcs(rows, imms):
+    """functions for the documented opcode inventory (NOT for what the regenerated table happens to contain: a row
+    the translator no longer understands must still be executed), fp/ld rows from the table's `other` rows"""
     g = Gen()
-    for name in rows["int"]:
+    for name in INT_OPS:
         op = name.lower()
         dom = harness_dom(name)
         g.add(("bin", name), "ii_i", f"  {op} r, a, b\n  ret r", dom=dom, shape="rr")
@@ -130,26 +137,24 @@ def build_grid_funcs(rows, imms):
                 g.add(("bin", name), "i_i", f"  {op} r, a, {simm(im)}\n  ret r", fixed_b=im, shape="ri")
         for im in imms[:3]:
             g.add(("bin", name, "swap"), "i_i", f"  {op} r, {simm(im)}, a\n  ret r", fixed_b=im, shape="ir")
-    for name in rows["br"]:
+    for name in BR_OPS:
         op = name.lower()
         g.add(("br", name), "ii_i", f"  {op} @t, a, b\n  mov r, 0\n  ret r\n@t:\n  mov r, 1\n  ret r", shape="br")
         for im in imms[:4]:
             g.add(("br", name), "i_i", f"  {op} @t, a, {simm(im)}\n  mov r, 0\n  ret r\n@t:\n  mov r, 1\n  ret r",
                   fixed_b=im, shape="br-ri")
-    for name in rows["cast"]:
+    for name in EXT_OPS:
         op = name.lower()
         g.add(("ext", name), "i_i", f"  {op} r, a\n  ret r", shape="r")
         g.add(("ext", name), "i_i", f"  alloca p, 16\n  mov i64:(p), a\n  {op} r, i64:(p)\n  ret r", locs="i64:r, i64:p", shape="m")
-    for name in rows["neg"]:
+    for name in ("NEG", "NEGS"):
         g.add(("neg", name), "i_i", f"  {name.lower()} r, a\n  ret r", shape="r")
     for name in ("BT", "BF", "BTS", "BFS"):
-        if name in rows["inline"]:
+        if True:
             g.add(("bt", name), "i_i", f"  {name.lower()} @t, a\n  mov r, 0\n  ret r\n@t:\n  mov r, 1\n  ret r", shape="bt")
     for o in ("add", "sub", "mul", "umul"):
         for short in (0, 1):
             op = o + "o" + ("s" if short else "")
-            if op.upper() not in rows["inline"]:
-                continue
             g.add(("ov", o, short, "res"), "ii_i", f"  mov r, 0\n  {op} r, a, b\n  ret r", shape="res")
             flags = [("sov", "bo", "bno")] if o == "mul" else [("uov", "ubo", "ubno")] if o == "umul" else \
                 [("sov", "bo", "bno"), ("uov", "ubo", "ubno")]
@@ -224,15 +229,15 @@ def build_grid_funcs(rows, imms):
 
 
 def int_grid(ck, quick):
-    ks = [7, 8, 15, 16, 31, 32, 33, 63] if quick else list(range(1, 64))
+    ks = [7, 8, 15, 16, 31, 32, 33, 63] if quick else [1, 2, 3, 4, 7, 8, 9, 15, 16, 17, 24, 30, 31, 32, 33, 34, 40, 47, 48, 56, 62, 63]
     v = {0, 1, 2, M64, M64 - 1, (1 << 63), (1 << 63) - 1, (1 << 31), (1 << 31) - 1, M32, (1 << 32),
          0xFFFFFFFF80000000, 0x80000000FFFFFFFF, 5, 130, 0x4000000040000000, 0x8000000080000000}
     for k in ks:
-        for d in ((0,) if quick else (-1, 0, 1)):
+        for d in ((0,) if quick else (-1, 0)):
             v.add(((1 << k) + d) & M64)
-            if not quick or k in (31, 32, 63):
+            if k in (31, 32, 63) or (not quick and d == 0 and k in (7, 8, 15, 16, 33)):
                 v.add((-((1 << k) + d)) & M64)
-    for _ in range(4 if quick else 24):
+    for _ in range(4 if quick else 10):
         v.add(ck.rng.next())
         v.add(ck.rng.next() & M32)
     return sorted(v)
@@ -327,7 +332,19 @@ def stage_templates(ck, st, rows, quick, viol):
         plan.append(f"grid {fn} {m['sig']} {m['dom'] if m['fixed_b'] is None else 'any'}")
     text = g.text()
     rc, lines, err = st.engine(text, "\n".join(plan) + "\n", "grid", timeout=600)
-    evals, errs = parse_R(lines, len(ENGS))
+    errs = [l for l in lines if l.startswith("E ")]
+    raw = [l for l in lines if l.startswith("R ")]
+    del lines
+
+    def evals_iter():
+        for ln in raw:
+            left, right = ln[2:].split(" |")
+            lt = left.split()
+            rs = right.split()
+            if len(rs) == 1 and rs[0].startswith("="):
+                rs = [rs[0][1:]] * len(ENGS)
+            yield lt[0], lt[1:], rs
+    evals = raw
     ck.log(f"stage A: {len(g.meta)} functions, grid {len(iv)} ints/{len(dv)} doubles/{len(fv)} floats/{len(lv)} long doubles, "
            f"{len(evals)} evaluations x {len(ENGS)} engines")
     if rc != 0 or errs or not evals:
@@ -335,9 +352,11 @@ def stage_templates(ck, st, rows, quick, viol):
         return g, {"evaluations": 0}
     # oracle requests
     req, idx = [], []
-    for i, (fn, args, rs) in enumerate(evals):
+    for i, (fn, args, rs) in enumerate(evals_iter()):
         m = g.meta[fn]
         key = m["key"]
+        if m["sig"].startswith("l"):
+            continue
         a = int(args[0], 16)
         b = int(args[1], 16) if len(args) > 1 else (m["fixed_b"] or 0)
         if key[0] == "bin":
@@ -361,7 +380,19 @@ def stage_templates(ck, st, rows, quick, viol):
         return g, {"evaluations": 0}
     oracle = dict(zip(idx, exp))
     dist, shapes = collections.Counter(), collections.Counter()
-    nontriv = set()
+    class _Distinct:
+        """distinct non-trivial cases, counted without storing them: grid points are distinct within one
+        function, so only the first function of every semantic key is counted (a lower bound)"""
+        def __init__(self):
+            self.first, self.n = {}, 0
+
+        def add(self, case):
+            if self.first.setdefault(case[0], self.cur) == self.cur:
+                self.n += 1
+
+        def __len__(self):
+            return self.n
+    nontriv = _Distinct()
     stats = collections.Counter()
     bad = collections.OrderedDict()      # (class, key) -> record
 
@@ -376,9 +407,10 @@ def stage_templates(ck, st, rows, quick, viol):
         if len(bad[k]["points"]) < 12:
             bad[k]["points"].append([f"{a:x}", f"{b:x}", rs])
 
-    for i, (fn, args, rs) in enumerate(evals):
+    for i, (fn, args, rs) in enumerate(evals_iter()):
         m = g.meta[fn]
         key = m["key"]
+        nontriv.cur = fn
         a = int(args[0], 16) if not m["sig"].startswith("l") else 0
         b = int(args[1], 16) if len(args) > 1 and not m["sig"].startswith("l") else (m["fixed_b"] or 0)
         kind = key[0]
@@ -395,11 +427,16 @@ def stage_templates(ck, st, rows, quick, viol):
                 stats["outside_domain_skipped"] += 1
                 continue
             e = oracle[i].split()
-            if e[0] in ("norow", "bad-line"):
-                record("norow", fn, a, b, rs, "no (understood) row in the regenerated table", prop_fails=False)
+            if e[0] == "bad-line" or len(e) < 3:
+                record("norow", fn, a, b, rs, "oracle does not know the opcode", prop_fails=False)
                 continue
             name = key[1]
             c0, c1, doc = e[0], e[1], e[2]
+            if c0 == "norow":     # the translator does not understand the row any more: judge by the documented result alone
+                stats["rows_not_understood_points"] += 1
+                if doc != "undef" and any(not agree_py(name, int(r, 16), int(doc, 16)) for r in rs[1:]):
+                    record("template", fn, a, b, rs, "compiled C differs from the documented result (row not understood by the translator)", model=oracle[i], doc=doc)
+                continue
             if doc == "undef":
                 stats["outside_domain_skipped"] += 1
                 continue
@@ -426,12 +463,15 @@ def stage_templates(ck, st, rows, quick, viol):
                     break
         elif kind in ("br", "ext", "bt"):
             e = oracle[i].split()
-            if e[0] in ("norow", "bad-line"):
-                record("norow", fn, a, b, rs, "no (understood) row in the regenerated table", prop_fails=False)
+            if e[0] == "bad-line":
+                record("norow", fn, a, b, rs, "oracle does not know the opcode", prop_fails=False)
                 continue
             if e[0] == "undef":
                 continue
             nontriv.add((key, a, b))
+            if e[0] == "norow":
+                stats["rows_not_understood_points"] += 1
+                e[0] = e[1]
             c, doc = int(e[0], 16), int(e[1], 16)
             vals = [int(r, 16) for r in rs]
             if vals[0] != doc:
